@@ -229,6 +229,10 @@ def annotate(lines, model_out):
             if len(m) >= 4:
                 n = 0 if m[2] == "-" else len(m[2].split(","))
                 ln = ln + " want=%d closed=%s" % (n, m[3].split("=")[1])
+        elif t[0] == "bdrain":
+            m = mo.split()
+            if len(m) >= 3 and m[2].startswith("n="):
+                ln = ln + " want=" + m[2][2:]
         elif t[0] == "await":
             m = mo.split()
             if len(m) == 3:
